@@ -1,11 +1,11 @@
 CONSTANTS
-  KeySeq <- K_abc
-  CKeySeq <- K_abcx
+  KeySeq <- K_abcde
+  CKeySeq <- K_abcde
   HVals = {"1", "2"}
   CVals = {"1", "2", ""}
   DVals = {"1"}
   UVals = {"1"}
-  PrefixLen = 0
+  PrefixLen = 3
   MaxHosts = 2
   MaxSel = 2
   Defects = {}
